@@ -1313,7 +1313,9 @@ func Main() {
 
 	// children are single-goroutine (TotalAlloc deltas are attributed to one decode); GOMAXPROCS=1 makes the two
 	// ReadMemStats stop-the-world pauses per decode three times cheaper
-	child := core.Opts{Procs: r.N(8, 16), HangIsViolation: true, StallSec: 120, MemMB: 4096, Env: []string{"GOMAXPROCS=1"}}
+	// A stalled child is reported as inconclusive, not as a violation: "never hangs" is not part of C16 and the
+	// largest cases (nesting depth 100 000, 400 kB inputs through ~100 decodes) can take minutes on a loaded machine.
+	child := core.Opts{Procs: r.N(8, 16), StallSec: 900, MemMB: 4096, Env: []string{"GOMAXPROCS=1"}}
 	// development aid: VERIF_C16_GROUPS=values,strings runs only those groups (the floors then report what is missing)
 	sel := os.Getenv("VERIF_C16_GROUPS")
 	cases := func(name string, n int, fn func(*core.Case)) {
